@@ -1087,7 +1087,10 @@ fn search_fair(seed: u64, budget: usize) -> Option<Value> {
 // undecodable frame or its first failing write; a streaming call yields its items, then the connection resumes.
 fn run_faults(wires: &[Vec<u8>], fail_write_at: &[Option<usize>], cuts: &[usize], slow: &[usize]) -> (Vec<Vec<String>>, Vec<Vec<String>>) {
     let socks: Vec<ScriptedSocket> = wires.iter().zip(fail_write_at).enumerate().map(|(i, (w, f))| {
-        let s = ScriptedSocket::new(w, cuts);
+        // cuts == [0]: every read delivers exactly one frame (a call that arrives in a segment of its own, e.g. while the
+        // connection is parked behind a stream)
+        let per_frame: Vec<usize> = frames_of(w).iter().map(|f| f.len() + 1).collect();
+        let s = ScriptedSocket::new(w, if cuts == [0] { &per_frame } else { cuts });
         if let Some(k) = f { s.0.borrow_mut().fail_writes = vec![*k]; }
         // a momentarily full transport: every k-th write pends once, then completes (it keeps accepting writes)
         s.0.borrow_mut().slow_write_every = slow.get(i).copied().unwrap_or(0);
@@ -1154,15 +1157,16 @@ fn search_faults(seed: u64, budget: usize) -> Option<Value> {
             let mut w = Vec::new();
             for _ in 0..rng.below(6) {
                 // faults are rarer than good calls
-                let k = if rng.below(5) == 0 { 11 + rng.below(4) } else { rng.below(11) };
-                w.extend_from_slice(calls[k].as_bytes());
+                let k = if rng.below(5) == 0 { 11 + rng.below(5) } else { rng.below(11) };
+                // (15: a complete frame of bytes that are not UTF-8 - garbage need not be text)
+                if k == 15 { w.extend_from_slice(&[0xffu8, 0xfe, 0xfd, 0x7b, 0x80]); } else { w.extend_from_slice(calls[k].as_bytes()); }
                 w.push(0);
             }
             if rng.below(6) == 0 { let cut = rng.below(w.len() + 1); w.truncate(cut); } // EOF mid-burst / mid-frame
             wires.push(w);
             fails.push(if rng.below(4) == 0 { Some(rng.below(4)) } else { None });
         }
-        let cuts: Vec<usize> = match rng.below(3) { 0 => vec![], 1 => vec![1 + rng.below(7)], _ => (0..3).map(|_| 1 + rng.below(60)).collect() };
+        let cuts: Vec<usize> = match rng.below(4) { 0 => vec![], 1 => vec![1 + rng.below(7)], 2 => vec![0], _ => (0..3).map(|_| 1 + rng.below(60)).collect() };
         let slow: Vec<usize> = (0..nconn).map(|_| if rng.below(3) == 0 { 1 + rng.below(3) } else { 0 }).collect();
         let (exp, got) = run_faults(&wires, &fails, &cuts, &slow);
         if !faults_ok(&wires, &fails, &exp, &got) {
@@ -1196,7 +1200,7 @@ fn gen_frame(rng: &mut Rng) -> Vec<u8> {
         4 => r#"{"method":"a.B","parameters":{"a":2}}}"#.to_string(),  // trailing garbage
         5 => r#"{"method":"a.B","parameters":{"a":"#.to_string(),        // truncated
         6 => format!(r#"{{"method":"a.S","parameters":{{"s":"{}"}}}}"#, "x".repeat(rng.below(600))),
-        7 => "x".to_string(),
+        7 => if rng.below(2) == 0 { "x".to_string() } else { " \n".to_string() },   // garbage; or nothing but whitespace (an "EOF while parsing" kind of error)
         _ => r#"{"method":"a.B","parameters":{"a":7}} {"method":"a.C"}"#.to_string(), // two docs in one frame
     };
     let mut f = pad(rng).into_bytes();
